@@ -1,5 +1,7 @@
 import Vanguard.Props.C04
 import Vanguard.Lemmas.EndRelay
+import Vanguard.Lemmas.UInt8
+import Vanguard.Gen.Facts
 /-!
   C04, second part — **the error a backend (or the transcoder) ends an RPC with is the error the client
   reads**, for the whole response path of the model of `Transcoder.ServeHTTP`.
@@ -96,6 +98,60 @@ theorem unary_error_status_is_published (c : ClientForm) (rm : RespMeta) (k : Si
     (cases hh : httpStatusFromRPC err.code with
      | none => simp [hh] at hs
      | some v => simp [hh] at hs; simp [hs])
+
+/-! ### the model's tables are the ones in the source (regenerated by `/verif/extract` on every run) -/
+
+/-- The table the model uses is, element for element, `httpStatusCodeFromRPCIndex` as the source
+    reads now. -/
+theorem source_status_table_is_model : Gen.statusTable = statusTable := by decide
+
+/-- The range guard in the source is the non-strict one the model uses, and out-of-range codes
+    get 500. -/
+theorem source_status_guard_is_model : Gen.statusGuardStrict = false ∧ Gen.statusOutOfRange = 500 := by decide
+
+/-- `httpStatusCodeToRPC` of the model is the switch in the source: first matching case, else the
+    default - for every status value. -/
+theorem source_to_rpc_is_model (status : Int) :
+    httpStatusToRPC status =
+      ((Gen.toRPCCases.find? fun c => (c.1 : Int) == status).map (·.2)).getD Gen.toRPCDefault := by
+  unfold httpStatusToRPC
+  simp only [Gen.toRPCCases, Gen.toRPCDefault, List.find?]
+  by_cases h1 : status = 200
+  · subst h1; rfl
+  by_cases h2 : status = 400
+  · subst h2; rfl
+  by_cases h3 : status = 401
+  · subst h3; rfl
+  by_cases h4 : status = 403
+  · subst h4; rfl
+  by_cases h5 : status = 404
+  · subst h5; rfl
+  by_cases h6 : status = 429
+  · subst h6; rfl
+  by_cases h7 : status = 502
+  · subst h7; rfl
+  by_cases h8 : status = 503
+  · subst h8; rfl
+  by_cases h9 : status = 504
+  · subst h9; rfl
+  have e1 : ((200 : Int) == status) = false := by simp; omega
+  have e2 : ((400 : Int) == status) = false := by simp; omega
+  have e3 : ((401 : Int) == status) = false := by simp; omega
+  have e4 : ((403 : Int) == status) = false := by simp; omega
+  have e5 : ((404 : Int) == status) = false := by simp; omega
+  have e6 : ((429 : Int) == status) = false := by simp; omega
+  have e7 : ((502 : Int) == status) = false := by simp; omega
+  have e8 : ((503 : Int) == status) = false := by simp; omega
+  have e9 : ((504 : Int) == status) = false := by simp; omega
+  simp [h1, h2, h3, h4, h5, h6, h7, h8, h9, e1, e2, e3, e4, e5, e6, e7, e8, e9]
+
+/-! ### the character classes of the percent coding are the ones in the source as it reads now
+  (`Gen.grpcShouldEscapeSrc`, `Gen.ishexSrc`: translated from `protocol_grpc.go` / `path_parser.go` on every run) -/
+
+set_option maxRecDepth 100000 in
+theorem source_percent_classes_are_model : ∀ c : UInt8,
+    grpcShouldEscape c = Gen.grpcShouldEscapeSrc c ∧ ishex c = Gen.ishexSrc c :=
+  forall_uint8 (by decide +kernel)
 
 /-! ### non-vacuity -/
 
